@@ -316,18 +316,41 @@ func cbGTime(in []byte) one {
 	if !s.ReadASN1GeneralizedTime(&t) {
 		return one{"err", "", false}
 	}
+	_, off := t.Zone()
 	re, ok := build(func(b *cryptobyte.Builder) { b.AddASN1GeneralizedTime(t) })
-	o, w := cbRes("ReadASN1GeneralizedTime", in, s, t.UTC().Format("20060102150405"), re, ok)
+	o, w := cbRes("ReadASN1GeneralizedTime", in, s, fmt.Sprintf("%d.%d@%d", t.Unix(), t.Nanosecond(), off), re, ok)
 	return one{o, w, true}
+}
+
+// cbUTime: ReadASN1UTCTime has no Builder counterpart in zcrypto; the value and the consumed length are compared with
+// the model, and the same-content oracle uses encoding/asn1's appendUTCTime (hook) for the forms with seconds.
+func cbUTime(in []byte) one {
+	s := cryptobyte.String(in)
+	var t time.Time
+	if !s.ReadASN1UTCTime(&t) {
+		return one{"err", "", false}
+	}
+	_, off := t.Zone()
+	consumed := in[:len(in)-len(s)]
+	viol := ""
+	if body := consumed[2:]; len(consumed) >= 2 && consumed[1] < 0x80 && (len(body) == 13 || len(body) == 17) {
+		re, err := asn1.ZVAppendUTCTime(t)
+		if err != nil {
+			viol = fmt.Sprintf("cryptobyte ReadASN1UTCTime accepted %q as a time that encoding/asn1 cannot write as UTCTime", body)
+		} else {
+			viol = canon("cryptobyte ReadASN1UTCTime", body, re, "")
+		}
+	}
+	return one{fmt.Sprintf("ok:%d.%d@%d:%d", t.Unix(), t.Nanosecond(), off, len(s)), viol, true}
 }
 
 var ops = map[string]func([]byte) one{
 	"ea-int": eaInt, "ea-bool": eaBool, "ea-oid": eaOID, "ea-b128": eaB128, "ea-bits": eaBits, "ea-hdr": eaHdr,
-	"cb-int": cbInt, "cb-bool": cbBool, "cb-oid": cbOID, "cb-bits": cbBits, "cb-any": cbAny, "cb-gtime": cbGTime,
+	"cb-int": cbInt, "cb-bool": cbBool, "cb-oid": cbOID, "cb-bits": cbBits, "cb-any": cbAny, "cb-gtime": cbGTime, "cb-utime": cbUTime,
 }
 
-// t3only lists the ops that are not (yet) modelled in Lean.
-var t3only = map[string]bool{"cb-gtime": true}
+// t3only lists the ops that are not (yet) modelled in Lean (none: GeneralizedTime / UTCTime are modelled by lean/ZV/Model/Time.lean).
+var t3only = map[string]bool{}
 
 const digestMod = 1000000007
 
@@ -814,7 +837,7 @@ func gen(g *zv.Gen) {
 		emit(g, "cb-any", el)
 	}
 
-	// ---- GeneralizedTime (cryptobyte), T3 only ----
+	// ---- GeneralizedTime (cryptobyte) ----
 	for i, n := 0, g.N(3000, 100000); i < n; i++ {
 		t := time.Unix(int64(r.U64()%253402300800), 0).UTC()
 		s := []byte(t.Format("20060102150405Z"))
@@ -832,9 +855,78 @@ func gen(g *zv.Gen) {
 		}
 		emit(g, "cb-gtime", cbEl(0x18, s))
 	}
+	// ---- GeneralizedTime / UTCTime (cryptobyte), aimed at every guard of time.Parse for the layout, the re-serialisation
+	// test and the element header (appended last: the lines above do not depend on these) ----
+	alphabet := "0123456789Z+-.,: z"
+	gBases := []string{"20240229235959Z", "00000101000000+0100", "99991231235959-2400", "20230615123015.5Z", "19000228235959-0030"}
+	uBases := []string{"491231235959Z", "500101000000+0100", "000229120030-2459", "6802291200Z", "6912312359-0100"}
+	timeBases := func(op string, tag byte, bases []string) {
+		for _, b := range bases {
+			emit(g, op, cbEl(tag, []byte(b)))
+			emit(g, op, append(cbEl(tag, []byte(b)), 0x05, 0x00))      // trailing data stays unread
+			emit(g, op, append([]byte{tag, 0x81, byte(len(b))}, b...)) // non-minimal length
+			emit(g, op, cbEl(tag^0x20, []byte(b)))                     // constructed bit
+			emit(g, op, cbEl(tag^0x0f, []byte(b)))                     // the other time type's tag
+			emit(g, op, cbEl(tag, []byte(b))[:len(b)+1])               // truncated
+			for pos := 0; pos < len(b); pos++ {
+				for _, ch := range []byte(alphabet) {
+					m := []byte(b)
+					m[pos] = ch
+					emit(g, op, cbEl(tag, m))
+				}
+				emit(g, op, cbEl(tag, []byte(b[:pos]+b[pos+1:])))
+				emit(g, op, cbEl(tag, []byte(b[:pos]+"0"+b[pos:])))
+			}
+		}
+	}
+	timeBases("cb-gtime", 0x18, gBases)
+	timeBases("cb-utime", 0x17, uBases)
+	for _, z := range []string{"Z", "", "+0000", "-0000", "+0001", "-0001", "+0059", "+0060", "+0100", "-0100", "+2359", "+2400", "-2400", "+2459", "-2459", "+2460", "+2500", "-2500",
+		"+01:00", "ZZ", "+0100Z", ".5Z", ",5Z", ".0Z", ".000000000Z", ".5+0100"} {
+		for _, d := range []string{"0101000000", "0229235959", "0230000000", "1231235960", "1301000000", "0100000000", "0431120000", "0430240000", "0430236000"} {
+			for _, y := range []string{"0000", "1900", "2000", "2023", "2024", "9999"} {
+				emit(g, "cb-gtime", cbEl(0x18, []byte(y+d+z)))
+			}
+			for _, y := range []string{"00", "23", "24", "49", "50", "68", "69", "99", "+5", "-5"} {
+				emit(g, "cb-utime", cbEl(0x17, []byte(y+d+z)))
+				emit(g, "cb-utime", cbEl(0x17, []byte(y+d[:8]+z)))
+			}
+		}
+	}
+	for i, n := 0, g.N(3000, 100000); i < n; i++ {
+		off := []int{0, 0, 3600, -3600, 19800, -43200, 86340, -86340, 86400, -86400, 89940, 60, -60}[r.Intn(13)]
+		loc := time.UTC
+		if off != 0 {
+			loc = time.FixedZone("", off)
+		}
+		op, tag, layout := "cb-gtime", byte(0x18), "20060102150405Z0700"
+		t := time.Unix(int64(r.U64()%253402300800), 0).In(loc)
+		if r.Bool() {
+			op, tag, layout = "cb-utime", 0x17, []string{"060102150405Z0700", "0601021504Z0700"}[r.Intn(2)]
+			t = time.Unix(-631152000+int64(r.U64()%(100*366*86400)), 0).In(loc)
+		}
+		s := []byte(t.Format(layout))
+		for k := r.Intn(3); k > 0 && len(s) > 0; k-- {
+			pos := r.Intn(len(s))
+			ch := alphabet[r.Intn(len(alphabet))]
+			switch r.Intn(3) {
+			case 0:
+				s[pos] = ch
+			case 1:
+				s = append(s[:pos:pos], append([]byte{ch}, s[pos:]...)...)
+			default:
+				s = append(s[:pos:pos], s[pos+1:]...)
+			}
+		}
+		el := cbEl(tag, s)
+		if r.Chance(10) {
+			el = append(el, ibytes(r, 1+r.Intn(3))...)
+		}
+		emit(g, op, el)
+	}
 }
 
 func init() {
 	zv.Register(&zv.Prop{ID: "C19", Topic: "c19", Gen: gen, Exec: exec,
-		Rule: "layer-0 DER decoders of encoding/asn1 (hooks) and cryptobyte (public API), strict mode: every INTEGER content <= 2 bytes singly and every 3-byte content in batches (x int64/int32/big, x int64/uint64/big readers), every BOOLEAN content <= 2 bytes, every OID / base-128 body <= 3 bytes (4 in thorough), every BIT STRING content <= 3 bytes, every header <= 2 bytes and 3..6-byte headers by first-byte class, every cryptobyte 2-byte header and 0x81/0x82 length with content present, long elements at the 0x7f/0x80/0xff/0x100/0xffff/0x10000 boundaries, plus random longer encodings with tails/truncations; a case is one input (a batch line enumerates 256^k inputs); T3 = re-encoding the accepted value with the same library reproduces the consumed bytes"})
+		Rule: "layer-0 DER decoders of encoding/asn1 (hooks) and cryptobyte (public API), strict mode: every INTEGER content <= 2 bytes singly and every 3-byte content in batches (x int64/int32/big, x int64/uint64/big readers), every BOOLEAN content <= 2 bytes, every OID / base-128 body <= 3 bytes (4 in thorough), every BIT STRING content <= 3 bytes, every header <= 2 bytes and 3..6-byte headers by first-byte class, every cryptobyte 2-byte header and 0x81/0x82 length with content present, long elements at the 0x7f/0x80/0xff/0x100/0xffff/0x10000 boundaries, plus random longer encodings with tails/truncations; cryptobyte GeneralizedTime / UTCTime elements (model-compared: value, unread length, the Builder's re-encoding): every single-character replacement over an 18-character alphabet in 10 base strings, one character removed / inserted, every zone form x month/leap/clock boundary dates x years, non-minimal length, wrong / constructed tag, truncation, trailing data, random edits of valid texts in zones up to 24h59; a case is one input (a batch line enumerates 256^k inputs); T3 = re-encoding the accepted value with the same library reproduces the consumed bytes"})
 }
